@@ -368,12 +368,14 @@ def exec_for(interp, node, fr, spec, it):
     entry = Instance(interp.object_cls, {k: lib_models.copy_deepcopy(interp, v) for k, v in fr.locals.items()
                                          if not isinstance(v, (FuncV, ClassV, ModuleV, Builtin, Dummy, BoundMethod))})
 
-    def run(mode, prefix, seen):
+    def run(mode, prefix, seen, item=None):
         fr.locals["loop_seen"] = seen
+        fr.locals["loop_item"] = item      # the element about to be processed (assume phase), else None
         try:
             return run_spec(interp, spec, fr, mode, prefix, entry)
         finally:
             fr.locals.pop("loop_seen", None)
+            fr.locals.pop("loop_item", None)
 
     run("assert", tag + "/init", PyList([]))
     for k, td in pairs:
@@ -389,9 +391,10 @@ def exec_for(interp, node, fr, spec, it):
     x_t = z3.Const(ctx.fresh_name("item"), sort.basis())
     ctx.assume(whole == z3.Concat(seen_t, z3.Unit(x_t), rest_t))
     seen = PyList([], prefix=seen_t)
-    run("assume", tag, seen)
+    item = term_to_elem(interp, x_t, kind)
+    run("assume", tag, seen, item)
     snap = _frame_snapshot(interp, fr, set(names) | {_target_name(node)})
-    interp.assign(node.target, term_to_elem(interp, x_t, kind), fr)
+    interp.assign(node.target, item, fr)
     try:
         interp.exec_block(node.body, fr)
     except BreakEx:
